@@ -24,7 +24,7 @@ def _distinct_keys(sess, key):
 def run_real(start, var_kw, seed, algo):
     from datetime import datetime
     from acnportal.acnsim import Simulator
-    from acnportal.acnsim.events import EventQueue, PluginEvent, RecomputeEvent
+    from acnportal.acnsim.events import EventQueue, PluginEvent, RecomputeEvent, UnplugEvent
     from acnportal.acnsim.models import EV, Battery
     from acnportal.algorithms import (UncontrolledCharging, SortedSchedulingAlgo, first_come_first_served,
                                       earliest_deadline_first, last_come_first_served)
@@ -43,7 +43,9 @@ def run_real(start, var_kw, seed, algo):
         ev = EV(x["arr"] + k, x["dep"] + k, x["req"] / KWH, sid(x["st"]), vid(i0 + 1),
                 Battery(x["cap"] / KWH, x["init"] / KWH, x["pw"] / 1000.0))
         events.append(PluginEvent(x["arr"] + k, ev))
-    rec = [RecomputeEvent(r + k) for r in start["recomp"]]
+    rec = [RecomputeEvent(r + k) for r in start["recomp"] if r < 1000]
+    by_id = {e.ev.session_id: e.ev for e in events}
+    rec += [UnplugEvent(r % 1000 + k, by_id[vid(r // 1000)]) for r in start["recomp"] if r >= 1000]
     events = (rec + events) if var.sess_perm else (events + rec)
     alg = {"uncontrolled": lambda: UncontrolledCharging(),
            "fcfs": lambda: SortedSchedulingAlgo(first_come_first_served),
@@ -125,7 +127,7 @@ def metamorphic_real_schedulers(rep, bhvs, seed):
         algo = algos[i % len(algos)]
         # heterogeneous finite-rate stations (different level sets, hence different minimum pilots)
         kinds = [["finite", "finiteB", "finiteC"][(s + i) % 3] for s in range(ns)] if i % 2 else ["finite"] * ns
-        base = dict(constraints=["agg", "3ph"][(i // 2) % 2], evse_kinds=kinds)
+        base = dict(constraints=["agg", "3ph", "dup"][(i // 2) % 3], evse_kinds=kinds)
         kws = [dict(base), dict(base), dict(base, st_perm=perm), dict(base, sess_perm=sp), dict(base, con_perm=True),
                dict(base, shift=r.choice([1, 2, 5])), dict(base, st_perm=perm, sess_perm=sp, con_perm=True)]
         jobs.append((start, kws, seed * 7 + i, algo))
